@@ -352,6 +352,52 @@ func storageDirected() [][]stEvent {
 					evSubscribed(id, packets.Subscriptions{g.subscription("a/b")}, []byte{rc})})
 		}
 	}
+	// several records per type, keys sorting so that records with many non-default fields and bare
+	// records alternate: every Stored* method has to decode each record on its own
+	{
+		gg := &stGen{rng: rand.New(rand.NewSource(12))}
+		fullCl := func(id string) *mqtt.Client {
+			cl := &mqtt.Client{ID: id}
+			cl.Net.Listener, cl.Net.Remote = "ws:1", "[::1]:1"
+			cl.Properties.Username = []byte("u:" + id)
+			cl.Properties.Clean, cl.Properties.ProtocolVersion = true, 5
+			p := &cl.Properties.Props
+			p.SessionExpiryInterval, p.SessionExpiryIntervalFlag = 77, true
+			p.RequestProblemInfo, p.RequestProblemInfoFlag, p.RequestResponseInfo = 1, true, 1
+			p.AuthenticationMethod, p.AuthenticationData = "SCRAM", []byte{1, 2}
+			p.ReceiveMaximum, p.TopicAliasMaximum, p.MaximumPacketSize = 5, 6, 7
+			p.User = []packets.UserProperty{{Key: "k", Val: "v"}}
+			cl.Properties.Will = mqtt.Will{Payload: []byte("w"), User: p.User, TopicName: "w/t", Flag: 1, WillDelayInterval: 3, Qos: 2, Retain: true}
+			return cl
+		}
+		bareCl := func(id string) *mqtt.Client { return &mqtt.Client{ID: id} }
+		fullPk := func(topic string, pid uint16) packets.Packet {
+			pk := gg.packet(packets.Publish, topic, pid)
+			pk.FixedHeader = packets.FixedHeader{Type: packets.Publish, Qos: 2, Dup: true, Retain: true, Remaining: 44}
+			pk.Origin, pk.Created = "o:1", 1000
+			pk.Properties = packets.Properties{PayloadFormat: 1, PayloadFormatFlag: true, MessageExpiryInterval: 60, ContentType: "ct",
+				ResponseTopic: "r/t", CorrelationData: []byte{9}, SubscriptionIdentifier: []int{4, 5}, User: []packets.UserProperty{{Key: "a", Val: "b"}},
+				TopicAlias: 3, TopicAliasFlag: true}
+			pk.Payload = []byte("full")
+			return pk
+		}
+		barePk := func(topic string, pid uint16) packets.Packet {
+			return packets.Packet{FixedHeader: packets.FixedHeader{Type: packets.Publish}, TopicName: topic, PacketID: pid}
+		}
+		fullSub := packets.Subscription{Identifier: 9, RetainHandling: 2, Qos: 2, RetainAsPublished: true, NoLocal: true}
+		bareSub := packets.Subscription{}
+		sub := func(s packets.Subscription, f string) packets.Subscriptions { s.Filter = f; return packets.Subscriptions{s} }
+		hs = append(hs, []stEvent{
+			evSessionEstablished(bareCl("c0"), false), evSessionEstablished(fullCl("c1"), false),
+			evSessionEstablished(bareCl("c2"), false), evSessionEstablished(fullCl("c3"), false),
+			evSubscribed("c0", sub(bareSub, "f"), []byte{0}), evSubscribed("c1", sub(fullSub, "f"), []byte{2}),
+			evSubscribed("c2", sub(bareSub, "f"), []byte{0}), evSubscribed("c3", sub(fullSub, "f"), []byte{1}),
+			evQosPublish("c0", barePk("t", 1), 0), evQosPublish("c1", fullPk("t", 1), 99),
+			evQosPublish("c2", barePk("t", 1), 0), evQosPublish("c3", fullPk("t", 2), 98),
+			evRetain("c0", barePk("r/0", 0), 1), evRetain("c1", fullPk("r/1", 0), 1),
+			evRetain("c0", barePk("r/2", 0), 1), evRetain("c1", fullPk("r/3", 0), 1),
+		})
+	}
 	return hs
 }
 
